@@ -145,7 +145,7 @@ _add("C18",
 
 NOT_APPLICABLE = []
 
-HOOK_COMMITS = ['f4e11fff6207578681bfe159fde132435a75db6b', 'c80cd8e781736d9cf047ae63c4117d911e79b492', '36e923c803e32367e0b9567db19ed45c7e679e57', 'd4d0caac768fbc161be45a56b818f54b8f8544b7', '18ace6ea4c44e4f9b55cbb2adc1f6155c1036680', '4ff155a294cff9a421227818a4b4143e0cca6a84']
+HOOK_COMMITS = ['f4e11fff6207578681bfe159fde132435a75db6b', 'c80cd8e781736d9cf047ae63c4117d911e79b492', '36e923c803e32367e0b9567db19ed45c7e679e57', 'd4d0caac768fbc161be45a56b818f54b8f8544b7', '18ace6ea4c44e4f9b55cbb2adc1f6155c1036680', '4ff155a294cff9a421227818a4b4143e0cca6a84', 'f5e7baa6659195a8ad7760e24eeacf9dbb0a6b36']
 
 E2E_NOTE = " Real-process layer: the unmodified `rdest get` binary (feature off, overflow checks on) runs in its own network namespace against a Python fake tracker and fake peers on real TCP; completion, byte-identical output, valid piece files, absence of panics and a logical stall criterion (no socket activity, no tracker request and < 50 ms CPU for 15 s) are judged; a plain timeout is inconclusive."
 CHECKS["C02"]["engines"] = [{"fn": "e2e", "tiers": ["quick", "thorough"]}, {"fn": "e2e_asan", "tiers": ["thorough"]}]
